@@ -35,6 +35,16 @@ def c05_runs(tier, scale):
     return runs
 
 
+# request verbs whose response lines are compared verbatim (everything else: ok-lines verbatim, any err = err)
+EXACT_VERBS = {"sinkwriteall", "rabin", "crc64", "once"}
+
+
+def c13_runs(tier, scale):
+    if tier == "thorough":
+        return [("c13", [60 * scale, 1], None) for _ in range(16)]
+    return [("c13", [12 * scale, 0], None), ("c13", [12 * scale, 0], None)]
+
+
 PROPS = {
     "C01": {
         "lean_modules": ["AvroProofs.C01"],
@@ -97,5 +107,20 @@ PROPS = {
                 "counting global allocator (largest single request), catch_unwind, an 8 s watchdog; plus the C06 byte streams for the model correspondence",
         "trusted_base": DATUM_TB + ["allocations made by C libraries (liblzma, zstd) bypass the counting allocator"],
         "assumptions": [],
+    },
+    "C13": {
+        "lean_modules": ["AvroProofs.C13"],
+        "theorems": ["Avro.C13.writeAll_exact", "Avro.C13.path_exact", "Avro.C13.short_write_loses",
+                     "Avro.C13.all_sites_use_writeAll", "Avro.C13.sites_found"],
+        "harness": c13_runs,
+        "projection": "okerr",
+        "nontrivial": lambda l: True,
+        "rule": "write scenarios {datum write_value_ref / write_ser, container append/flush/extend/into_inner/drop x codecs x block sizes, "
+                "container append_ser, generic single-object writer x2} x sinks {accept 1,2,3,7 bytes per call; pseudo-random accepts; an error and an "
+                "Interrupted at every write-call index; 1 byte then error; an error at every flush index}; plus std's write_all on random scripted sinks "
+                "diffed against the Lean model of the Write contract (request lines counted here)",
+        "trusted_base": ["std::io::Write::{write, write_all} contract is modelled (Sink.lean) and diffed against std on scripted sinks",
+                         "the translator's table of write sites (regular expressions over rustfmt-formatted sources)"],
+        "assumptions": ["sinks obey the documented Write contract"],
     },
 }
